@@ -163,10 +163,11 @@ PROPERTY = {
     'C19': dict(
         level='proof',
         explanation='post-conditions of the real BaseRegularizer.__call__ and DUCCIO.__init__/__call__ over all real costs, targets, '
-                    'strengths and all integer schedule positions; number of metrics enumerated (the loop over metrics unrolls), '
-                    'n_epochs enumerated only for the non-linear schedule clauses',
-        not_decided=['float32 rounding (A-real)', 'more metrics than enumerated: each metric contributes an independent summand (no clause '
-                     'couples two metrics), the enumeration is not an induction'],
+                    'strengths and all integer schedule positions.  Non-negativity and "zero exactly when every cost is within target" are proved for '
+                    'ANY number of metrics through a loop invariant on the accumulation loop (mode B: targets / strengths are sequences of symbolic '
+                    'length); the quantitative clauses (bounds, monotonicity in each excess, schedule shape, derived strengths) unroll the loop for '
+                    '1..3(4) metrics; n_epochs is enumerated only for the non-linear schedule clauses',
+        not_decided=['float32 rounding (A-real)', 'quantitative clauses for more metrics than enumerated (each metric contributes an independent summand)'],
         assumptions=['model.get_cost(name) returns the same value when called twice within one regularizer call'],
     ),
 }
@@ -189,4 +190,53 @@ HARNESSES = [
          quick=[{}], thorough=[{}]),
     dict(name='duccio-derived-strengths', fn='h_derived_strengths', property='C19', functions=['plinio/regularizers/duccio.py::DUCCIO.__call__'],
          quick=[dict(n=n) for n in (1, 2, 3)], thorough=[dict(n=n) for n in (1, 2, 3)]),
+]
+
+
+# ----------------------------------------------------------------------------------------------------------------------
+# mode B: ANY number of metrics - loop invariant on the accumulation loop of DUCCIO.__call__
+# ----------------------------------------------------------------------------------------------------------------------
+class SymTargets:
+    """the `targets` dictionary as a sequence of symbolic length: items() yields (name_i, target_i)"""
+    def __init__(self, seq):
+        self.seq = seq
+
+    def items(self):
+        return self.seq
+
+
+class SymModel:
+    def __init__(self, H):
+        self.H = H
+
+    def get_cost(self, name):
+        return self.H.utensor('cost_of', self.H.ref_id(name))
+
+
+def h_unbounded_metrics(H):
+    n = H.int('n_metrics')
+    epoch, n_epochs = H.int('epoch'), H.int('n_epochs')
+    H.assume(H.and_(n >= 0, epoch >= 0, n_epochs >= 1))
+    cost_of = lambda j: H.scalar(H.utensor('cost_of', j + 1))
+    target_of = lambda j: H.scalar(H.utensor('target_of', j))
+    strength_of = lambda j: H.scalar(H.utensor('strength_of', j))
+    H.assume(H.forall_int(lambda j: strength_of(j) > 0))
+    reg = H.bare_object(DUCCIO)
+    reg.targets = SymTargets(H.sseq('targets', n, lambda i: (H.symref(i + 1), H.utensor('target_of', i))))      # metric i is named by the id i+1
+    reg.final_strengths = H.sseq('strengths', n, lambda i: H.utensor('strength_of', i))
+    reg.task_loss = None
+
+    def within(hi):
+        return H.forall_int(lambda j: H.implies(H.and_(0 <= j, j < hi), cost_of(j) <= target_of(j)))
+    H.invariant('DUCCIO.__call__', 0,
+                lambda env, i: H.and_(H.scalar(env.cost) >= 0, H.iff(H.scalar(env.cost) == 0, within(i))),
+                {'cost': lambda: H.scalar_tensor(H.fresh_real('acc'))})
+    r = H.scalar(reg(SymModel(H), epoch, n_epochs))
+    H.ensure('duccio-unbounded:non-negative', r >= 0)
+    H.ensure('duccio-unbounded:zero-exactly-when-every-cost-is-within-target', H.iff(r == 0, within(n)))
+
+
+HARNESSES = HARNESSES + [
+    dict(name='duccio-unbounded-metrics', fn='h_unbounded_metrics', property='C19', native=False, crosscheck=0,
+         functions=['plinio/regularizers/duccio.py::DUCCIO.__call__'], quick=[{}], thorough=[{}], timeout=60),
 ]
